@@ -32,6 +32,7 @@ type genSet struct {
 	broken   map[string]string  // program id -> compile error of its generated file
 	written  map[string]bool    // gen file existed right after the cff run
 	perFile  map[string]*cffRun // per-file re-runs after a crash of the tool on the package
+	per      int                // programs per package (default perPkg)
 }
 
 type cffRun struct {
@@ -78,9 +79,13 @@ func (g *genSet) write(repo, verifDir string) {
 	writeFile(filepath.Join(g.dir, "ext", "ext.go"), pg.ExtFile())
 	writeFile(filepath.Join(g.dir, "othertime", "othertime.go"), "// Package othertime is a user package that files import under the name time.\npackage othertime\n\nconst Marker = 1\n")
 	var pkgs []string
+	per := g.per
+	if per <= 0 {
+		per = perPkg
+	}
 	for i, p := range g.progs {
-		pkg := fmt.Sprintf("f%d", i/perPkg)
-		if i%perPkg == 0 {
+		pkg := fmt.Sprintf("f%d", i/per)
+		if i%per == 0 {
 			pkgs = append(pkgs, pkg)
 			writeFile(filepath.Join(g.dir, pkg, "types.go"), pg.TypesFile(pkg))
 		}
